@@ -423,6 +423,9 @@ def _is_cell_expr(e):
     return t.endswith(".cell") or t == "cell" or t.endswith(".cell.T")
 
 
+from .common import eq_const  # noqa: E402
+
+
 def _is_diag_matrix(e):
     """diag(diag(cell)) or diag(cell) * identity(3) / eye(3): the diagonal part of the cell matrix"""
     if isinstance(e, ast.Call) and call_name(e) == "diag" and e.args and isinstance(e.args[0], ast.Call) and call_name(e.args[0]) == "diag":
@@ -517,7 +520,25 @@ def C_axis_diag(repo, clause):
                                 rhs = b_.right if isinstance(b_, ast.BinOp) else b_.value
                                 if any(isinstance(x, ast.Name) and x.id == nm_ for x in ast.walk(rhs)):
                                     arith = True
-            obs.append(Ob("Caxis", clause, fn, c, ok, why, slot="diag:%s" % re.sub(r"\s+", " ", ast.unparse(fn.stmt_of(c)))[:70], positive=arith))
+            # a hand-written "no tilt" test in front of the diagonal that examines only SOME of the six off-diagonal entries
+            partial = None
+            if not ok:
+                ents = set()
+                for t, pol, k in norm_guards(fn, c):
+                    if not pol:
+                        continue
+                    for cmp_ in [y for y in ast.walk(t) if isinstance(y, ast.Compare)]:
+                        e_ = eq_const(cmp_)
+                        if e_ is not None and e_[2] and e_[1] == 0 and isinstance(e_[0], ast.Subscript) and _is_cell_expr(e_[0].value) and isinstance(e_[0].slice, ast.Tuple) \
+                                and len(e_[0].slice.elts) == 2:
+                            ij = tuple(const_value(x_) for x_ in e_[0].slice.elts)
+                            if None not in ij and ij[0] != ij[1]:
+                                ents.add(ij)
+                if 0 < len(ents) < 6:
+                    partial = sorted(ents)
+                    why = ("np.diag(cell) is used as the box under a hand-written test that only checks the off-diagonal entries %s: a cell whose OTHER off-diagonal entries are non-zero "
+                           "(an arbitrarily oriented cell with an upper triangle) passes the test, and its diagonal is not its lattice" % partial)
+            obs.append(Ob("Caxis", clause, fn, c, ok, why, slot="diag:%s" % re.sub(r"\s+", " ", ast.unparse(fn.stmt_of(c)))[:70], positive=arith or partial is not None))
     floor("Caxis", "np.diag(cell) sites", n, 6)
     # the orthorhombic test itself: all six off-diagonal entries must be examined
     co = repo.fn("Atoms.cell_is_orthorhombic")
